@@ -29,6 +29,10 @@ pub struct Scenario {
 #[derive(Clone, Debug, Serialize, Deserialize)]
 pub struct Hex(#[serde(with = "crate::hexbytes")] pub Vec<u8>);
 
+fn t_uses_alpha(mode: u32) -> bool {
+    mode >= 4
+}
+
 fn standalone_of(p: &Program, f: &FrameSpec) -> Program {
     let (fw, fh) = p.frame_dims(f);
     let mut q = p.clone();
@@ -48,6 +52,9 @@ fn standalone_of(p: &Program, f: &FrameSpec) -> Program {
     g.is_last = true;
     g.save_as_reference = 0;
     g.save_before_ct = false;
+    // the frame's own samples: patches are applied by the model
+    g.patches = None;
+    g.splines = None;
     // ReferenceOnly frames do not code passes; a Regular frame does (single pass = same layout)
     q.frames = vec![g];
     q
@@ -55,7 +62,7 @@ fn standalone_of(p: &Program, f: &FrameSpec) -> Program {
 
 pub fn generate(seed: u64, tier: Tier) -> Scenario {
     let mut rng = Rng::new(derive(seed, 5, 0));
-    let mut cfg = GenConfig { max_dim: 64, max_frames: 6, min_frames: 2, max_pixels: 64 * 64, noise: false, orientation: false, features: false, ..GenConfig::small() }.swarm(&mut rng);
+    let mut cfg = GenConfig { max_dim: 64, max_frames: 6, min_frames: 2, max_pixels: 64 * 64, noise: false, orientation: false, features: true, splines: false, ..GenConfig::small() }.swarm(&mut rng);
     cfg.noise = false;
     cfg.orientation = false;
     cfg.blending = true;
@@ -82,6 +89,57 @@ pub fn generate(seed: u64, tier: Tier) -> Scenario {
         if program.frame_resets_canvas(&program.frames[i]) {
             for b in &mut program.frames[i].ec_blend {
                 b.mode = BlendMode::Replace;
+            }
+        }
+    }
+    // Patches ("follow the same arithmetic"): the model applies them to the frame's own samples as
+    // decoded standalone, i.e. at full resolution — keep them to frames that are not upsampled (the
+    // format applies patches before upsampling). Extra channels other than the alpha channel a
+    // colour entry refers to use the alpha-free modes, so that the result does not depend on the
+    // order in which channels are updated. Half of the programs get patches on every eligible frame.
+    {
+        let mut prng = Rng::new(program.cw_seed ^ 0xC05_0000_0001);
+        let more = prng.chance(1, 2);
+        let alpha_idx: Vec<usize> = program.extra.iter().enumerate().filter(|(_, e)| matches!(e.kind, EcKind::Alpha { .. })).map(|(i, _)| i).collect();
+        for i in 0..program.frames.len() {
+            let plain = program.frames[i].upsampling == 1 && program.frames[i].ec_upsampling.iter().all(|&u| u == 1) && program.extra.iter().all(|e| e.dim_shift == 0);
+            if !plain {
+                program.frames[i].patches = None;
+                continue;
+            }
+            if more && program.frames[i].patches.is_none() {
+                let mut slots: [Option<(u32, u32)>; 4] = [None; 4];
+                for q in &program.frames[..i] {
+                    if Program::frame_can_reference(q) {
+                        slots[q.save_as_reference as usize] = if q.crop.is_some() { None } else { Some(program.frame_dims(q)) };
+                    }
+                }
+                let f = &program.frames[i];
+                let inside = match f.crop {
+                    None => true,
+                    Some((x0, y0, w, h)) => x0 >= 0 && y0 >= 0 && x0 as i64 + w as i64 <= program.width as i64 && y0 as i64 + h as i64 <= program.height as i64,
+                };
+                if inside {
+                    let dims = program.frame_dims(f);
+                    let ps = crate::jxlgen::features::PatchSpec::random(&mut prng, &program, dims, &slots, true);
+                    program.frames[i].patches = ps;
+                }
+            }
+            if let Some(ps) = program.frames[i].patches.as_mut() {
+                for r in &mut ps.refs {
+                    for t in &mut r.targets {
+                        let colour_alpha = t.2[0].alpha as usize;
+                        for (ci, b) in t.2.iter_mut().enumerate().skip(1) {
+                            let ec = ci - 1;
+                            if alpha_idx.contains(&ec) && ec == colour_alpha && t_uses_alpha(b.mode) {
+                                // the alpha channel itself: keep (mix / keep / replace rules)
+                                b.alpha = colour_alpha as u32;
+                            } else if b.mode >= 4 {
+                                b.mode %= 4;
+                            }
+                        }
+                    }
+                }
             }
         }
     }
@@ -167,6 +225,13 @@ fn compose(p: &Program, frames: &[Img]) -> Vec<Img> {
     let mut slots: [Option<Img>; 4] = [None, None, None, None];
     let mut shown = Vec::new();
     for (f, fi) in p.frames.iter().zip(frames) {
+        let patched;
+        let fi = if let Some(ps) = &f.patches {
+            patched = apply_patches(p, ps, fi, &slots);
+            &patched
+        } else {
+            fi
+        };
         let normal = Program::frame_is_normal(f);
         if !normal {
             // reference-only: stored as decoded, never blended, never shown
@@ -212,6 +277,59 @@ fn compose(p: &Program, frames: &[Img]) -> Vec<Img> {
     shown
 }
 
+/// Patches: rectangles of reference frames blended into the frame's own samples, in the order
+/// listed, with the patch blend modes (none, replace, add, multiply, blend above / below,
+/// alpha-weighted add above / below) — the same arithmetic as the frame blend modes, with the
+/// patch as the new layer ("above") or as the old one ("below").
+fn apply_patches(p: &Program, ps: &crate::jxlgen::features::PatchSpec, own: &Img, slots: &[Option<Img>; 4]) -> Img {
+    let ncol = p.num_color();
+    let nch = ncol + p.extra.len();
+    let mut img = own.clone();
+    for r in &ps.refs {
+        let Some(src) = slots[r.ref_idx as usize].as_ref() else { continue };
+        for (tx, ty, blends) in &r.targets {
+            // all channels are computed from the values before this patch target is applied
+            let before = img.clone();
+            for c in 0..nch {
+                let b = if c < ncol { &blends[0] } else { &blends[1 + c - ncol] };
+                if b.mode == 0 {
+                    continue;
+                }
+                let uses_alpha = b.mode >= 4;
+                let alpha_c = ncol + b.alpha as usize;
+                let premultiplied = uses_alpha && matches!(p.extra.get(b.alpha as usize).map(|e| &e.kind), Some(EcKind::Alpha { associated: true }));
+                for dy in 0..r.h as i64 {
+                    for dx in 0..r.w as i64 {
+                        let (x, y) = (*tx as i64 + dx, *ty as i64 + dy);
+                        let (sx, sy) = (r.x0 as i64 + dx, r.y0 as i64 + dy);
+                        if x < 0 || y < 0 || x as usize >= img.w || y as usize >= img.h || sx as usize >= src.w || sy as usize >= src.h {
+                            continue;
+                        }
+                        let (x, y, sx, sy) = (x as usize, y as usize, sx as usize, sy as usize);
+                        let old = before.ch[c][y * img.w + x];
+                        let pat = src.ch[c][sy * src.w + sx];
+                        let (old_a, pat_a) = if uses_alpha { (before.ch[alpha_c][y * img.w + x], src.ch[alpha_c][sy * src.w + sx]) } else { (0.0, 0.0) };
+                        let is_alpha = uses_alpha && c == alpha_c;
+                        img.ch[c][y * img.w + x] = match b.mode {
+                            1 => pat,
+                            2 => old + pat,
+                            3 => blend_sample(BlendMode::Mul, false, false, b.clamp, old, pat, 0.0, 0.0),
+                            // blend: patch above the frame / below it
+                            4 => blend_sample(BlendMode::Blend, is_alpha, premultiplied, b.clamp, old, pat, old_a, pat_a),
+                            5 => blend_sample(BlendMode::Blend, is_alpha, premultiplied, b.clamp, pat, old, pat_a, old_a),
+                            // alpha-weighted add: the alpha channel keeps the value of the lower layer
+                            6 => if is_alpha { old } else { blend_sample(BlendMode::MulAdd, false, premultiplied, b.clamp, old, pat, old_a, pat_a) },
+                            7 => if is_alpha { pat } else { blend_sample(BlendMode::MulAdd, false, premultiplied, b.clamp, pat, old, pat_a, old_a) },
+                            _ => old,
+                        };
+                    }
+                }
+            }
+        }
+    }
+    img
+}
+
 fn sample(img: &Img, c: usize, x: usize, y: usize) -> f32 {
     if x < img.w && y < img.h { img.ch[c][y * img.w + x] } else { 0.0 }
 }
@@ -250,6 +368,15 @@ fn features(p: &Program) -> String {
         }
         if f.upsampling > 1 {
             s.insert("up".into());
+        }
+        if let Some(ps) = &f.patches {
+            for r in &ps.refs {
+                for t in &r.targets {
+                    for b in &t.2 {
+                        s.insert(format!("patch{}", b.mode));
+                    }
+                }
+            }
         }
     }
     s.into_iter().collect::<Vec<_>>().join("+")
